@@ -25,7 +25,7 @@ package storage
 //@ spec func offsetsIncreasing(entries []*IndexEntry) bool = forall i Int, j Int :: {entries[i], entries[j]} 0 <= i && i < j && j < len(entries) ==> entries[i].Offset < entries[j].Offset
 //@ spec func positionsIncreasing(entries []*IndexEntry) bool = forall i Int, j Int :: {entries[i], entries[j]} 0 <= i && i < j && j < len(entries) ==> entries[i].Position < entries[j].Position
 //@ spec func offsetsBelow(entries []*IndexEntry, bound int64) bool = forall i Int :: {entries[i]} 0 <= i && i < len(entries) ==> entries[i].Offset < bound
-//@ spec func positionsBelow(entries []*IndexEntry, bound int64) bool = forall i Int :: {entries[i]} 0 <= i && i < len(entries) ==> int64(entries[i].Position) < bound
+//@ spec func positionsBelow(entries []*IndexEntry, bound int64) bool = forall i Int :: {entries[i]} 0 <= i && i < len(entries) ==> entries[i].Position < bound
 //@ func (b *IndexBuilder) MaybeAdd
 //@   ensures [C03.maybeadd_appends_when_due] (old(len(b.entries)) == 0 || old(b.sinceLast) >= old(b.interval)) ==> len(b.entries) == old(len(b.entries)) + 1 && b.sinceLast == batchMessages && (forall i Int :: {b.entries[i]} i == old(len(b.entries)) ==> b.entries[i] != nil && b.entries[i].Offset == offset && b.entries[i].Position == position)
 //@   ensures [C03.maybeadd_keeps_earlier_entries] len(b.entries) >= old(len(b.entries)) && (forall i Int :: {b.entries[i]} 0 <= i && i < old(len(b.entries)) ==> b.entries[i] == old(b.entries[i]) && (len(b.entries) > old(len(b.entries)) ==> b.entries[old(len(b.entries))] != old(b.entries[i])))
@@ -34,9 +34,9 @@ package storage
 //@   ensures [C03.maybeadd_keeps_nonnil] old(entriesNonNil(b.entries)) ==> entriesNonNil(b.entries)
 //@   ensures [C03.maybeadd_keeps_positions_from32] old(positionsFrom32(b.entries)) && position >= 32 ==> positionsFrom32(b.entries)
 //@   ensures [C03.maybeadd_keeps_offsets_increasing] old(offsetsIncreasing(b.entries)) && old(offsetsBelow(b.entries, offset)) ==> offsetsIncreasing(b.entries)
-//@   ensures [C03.maybeadd_keeps_positions_increasing] old(positionsIncreasing(b.entries)) && old(positionsBelow(b.entries, int64(position))) ==> positionsIncreasing(b.entries)
+//@   ensures [C03.maybeadd_keeps_positions_increasing] old(positionsIncreasing(b.entries)) && old(positionsBelow(b.entries, position)) ==> positionsIncreasing(b.entries)
 //@   ensures [C03.maybeadd_offsets_below_next] old(offsetsBelow(b.entries, offset)) && offset < 9223372036854775807 ==> offsetsBelow(b.entries, offset + 1)
-//@   ensures [C03.maybeadd_positions_below_next] old(positionsBelow(b.entries, int64(position))) ==> positionsBelow(b.entries, int64(position) + 1)
+//@   ensures [C03.maybeadd_positions_below_next] old(positionsBelow(b.entries, position)) ==> positionsBelow(b.entries, position + 1)
 //@
 //@ func (b *IndexBuilder) Entries
 //@   ensures [C03.entries_is_copy] len(result) == old(len(b.entries)) && (forall i Int :: {result[i]} 0 <= i && i < len(result) ==> result[i] == old(b.entries[i]))
@@ -46,12 +46,12 @@ package storage
 //@   ensures [C03.entries_result_positions_from32] old(positionsFrom32(b.entries)) ==> positionsFrom32(result)
 //@   ensures [C03.entries_result_offsets_increasing] old(offsetsIncreasing(b.entries)) ==> offsetsIncreasing(result)
 //@   ensures [C03.entries_result_positions_increasing] old(positionsIncreasing(b.entries)) ==> positionsIncreasing(result)
+//@   ensures [C03.entries_result_positions_below] forall bound int64 :: old(positionsBelow(b.entries, bound)) ==> positionsBelow(result, bound)
 
 // ---- BuildSegment: segment = 32-byte header ++ batch bytes in order ++ 16-byte footer; index entries point at batch starts ----
 // Ghost sequences recorded from the execution (not definitions): batch k was written to the body at offsets
 // [gP[k], gE[k]) (gP[k] is the body length when its Write started, gE[k] the length when it returned).
-// Index entry j was added by the MaybeAdd call for batch gK[j] with the arguments offset gO[j] and position gQ[j];
-// gN counts the entries.
+// gpos is the body length at the MaybeAdd call of the current iteration (the position handed to the index, minus 32).
 //@ spec func batchesAscending(batches []RecordBatch) bool = forall i Int, j Int :: {batches[i].BaseOffset, batches[j].BaseOffset} 0 <= i && i < j && j < len(batches) ==> batches[i].BaseOffset < batches[j].BaseOffset
 //@ func (b *IndexBuilder) BuildBytes
 //@   modular
@@ -59,26 +59,27 @@ package storage
 //@   lean_invariants
 //@   ghost gP (Array Int Int) = constArray(0)
 //@   ghost gE (Array Int Int) = constArray(0)
-//@   ghost gK (Array Int Int) = constArray(0)
-//@   ghost gO (Array Int Int) = constArray(0)
-//@   ghost gQ (Array Int Int) = constArray(0)
-//@   ghost gN int = 0
-//@   loop 1 modifies gP, gE, gK, gO, gQ, gN
-//@   loop 1 invariant -1 <= rangeindex && rangeindex < len(batches) && index != nil && body != nil && bufOpen(body) && index.interval >= 1 && gN == len(index.entries) && (gN > 0) == (rangeindex >= 0) && (gN > 0 ==> gK[0] == 0)
+//@   ghost gpos int = 0
+//@   loop 1 modifies gP, gE
+//@   loop 1 invariant -1 <= rangeindex && rangeindex < len(batches) && index != nil && body != nil && bufOpen(body) && index.interval >= 1 && (len(index.entries) > 0) == (rangeindex >= 0)
+// bytes: batch k occupies [gP[k], gE[k]) of the body, batches are adjacent, the body holds their bytes
 //@   loop 1 invariant forall k Int :: {gP[k]} 0 <= k && k <= rangeindex ==> len(batches[k].Bytes) > 0 && 0 <= gP[k] && gE[k] == gP[k] + len(batches[k].Bytes) && gE[k] <= bufLen(body)
 //@   loop 1 invariant (rangeindex >= 0 ==> gP[0] == 0 && bufLen(body) == gE[rangeindex]) && (rangeindex < 0 ==> bufLen(body) == 0) && (forall k Int :: {gP[k]} 1 <= k && k <= rangeindex ==> gP[k] == gE[k-1])
 //@   loop 1 invariant forall k Int, j Int :: {batches[k].Bytes[j]} 0 <= k && k <= rangeindex && 0 <= j && j < len(batches[k].Bytes) ==> bufAt(body, gP[k] + j) == batches[k].Bytes[j]
+// index shape, carried by the IndexBuilder contract: every entry lies below the last batch seen / the current end of the body
 //@   loop 1 invariant entriesNonNil(index.entries)
-//@   loop 1 invariant forall j Int :: {index.entries[j]} 0 <= j && j < gN ==> index.entries[j].Offset == gO[j]
-//@   loop 1 invariant forall j Int :: {index.entries[j]} 0 <= j && j < gN ==> int64(index.entries[j].Position) == gQ[j]
-//@   loop 1 invariant forall j Int :: {gK[j]} {gO[j]} {gQ[j]} 0 <= j && j < gN ==> 0 <= gK[j] && gK[j] <= rangeindex && gO[j] == batches[gK[j]].BaseOffset && (32 + gP[gK[j]] <= 2147483647 ==> gQ[j] == 32 + gP[gK[j]])
-//@   loop 1 invariant 32 + bufLen(body) <= 2147483647 ==> positionsFrom32(index.entries)
 //@   loop 1 invariant batchesAscending(batches) ==> offsetsIncreasing(index.entries)
+//@   loop 1 invariant batchesAscending(batches) && rangeindex >= 0 && batches[rangeindex].BaseOffset < 9223372036854775807 ==> offsetsBelow(index.entries, batches[rangeindex].BaseOffset + 1)
+//@   loop 1 invariant 32 + bufLen(body) <= 2147483647 ==> positionsFrom32(index.entries)
 //@   loop 1 invariant 32 + bufLen(body) <= 2147483647 ==> positionsIncreasing(index.entries)
-//@   at MaybeAdd#1 after set gK = store(gK, gN, ite(len(index.entries) > gN, rangeindex, gK[gN]))
-//@   at MaybeAdd#1 after set gO = store(gO, gN, ite(len(index.entries) > gN, arg0, gO[gN]))
-//@   at MaybeAdd#1 after set gQ = store(gQ, gN, ite(len(index.entries) > gN, int64(arg1), gQ[gN]))
-//@   at MaybeAdd#1 after set gN = len(index.entries)
+//@   loop 1 invariant 32 + bufLen(body) <= 2147483647 ==> positionsBelow(index.entries, 32 + bufLen(body))
+//@   loop 1 invariant forall i Int :: {index.entries[i]} i == 0 && rangeindex >= 0 ==> index.entries[i].Offset == batches[0].BaseOffset && index.entries[i].Position == 32
+// every MaybeAdd call is given the base offset of the batch and 32 + the body offset at which the batch's bytes are then written
+//@   at MaybeAdd#1 before assert [C03.call_args_are_batch_start] arg0 == batches[rangeindex].BaseOffset && arg1 == int32(32 + bufLen(body)) && arg2 == batches[rangeindex].MessageCount
+//@   at MaybeAdd#1 before assert [C03.call_offset_above_index] batchesAscending(batches) ==> offsetsBelow(index.entries, arg0)
+//@   at MaybeAdd#1 before assert [C03.call_position_above_index] 32 + bufLen(body) <= 2147483647 ==> positionsBelow(index.entries, arg1)
+//@   at MaybeAdd#1 before set gpos = bufLen(body)
+//@   at Write#1 before assert [C03.batch_written_where_indexed] bufLen(body) == gpos && arg0 == batches[rangeindex].Bytes
 //@   at Write#1 before set gP = store(gP, rangeindex, bufLen(body))
 //@   at Write#1 after set gE = store(gE, rangeindex, bufLen(body))
 //@   ensures [C03.build_rejects_empty] len(batches) == 0 ==> err != nil
@@ -88,15 +89,12 @@ package storage
 //@   ensures [C03.seg_body_is_batches_in_order] err == nil ==> forall k Int, j Int :: {batches[k].Bytes[j]} 0 <= k && k < len(batches) && 0 <= j && j < len(batches[k].Bytes) ==> result0.SegmentBytes[32 + gP[k] + j] == batches[k].Bytes[j]
 //@   ensures [C03.artifact_offsets] err == nil ==> result0.BaseOffset == batches[0].BaseOffset && result0.LastOffset == int64(batches[len(batches)-1].BaseOffset + int64(batches[len(batches)-1].LastOffsetDelta))
 //@   ensures [C03.seg_header_footer_offsets] err == nil ==> int64(be64(result0.SegmentBytes, 8)) == result0.BaseOffset && int64(be64(result0.SegmentBytes, len(result0.SegmentBytes) - 12)) == result0.LastOffset
-//@   ensures [C03.index_count] err == nil ==> len(result0.RelativeIndex) == gN && gN >= 1 && gK[0] == 0
+//@   ensures [C03.index_nonempty] err == nil ==> len(result0.RelativeIndex) >= 1
+//@   ensures [C03.index_first_entry_is_first_batch] err == nil ==> forall i Int :: {result0.RelativeIndex[i]} i == 0 ==> result0.RelativeIndex[i].Offset == batches[0].BaseOffset && result0.RelativeIndex[i].Position == 32
 //@   ensures [C03.index_entry_nonnil] err == nil ==> entriesNonNil(result0.RelativeIndex)
-//@   ensures [C03.index_entry_offset] err == nil ==> forall j Int :: {result0.RelativeIndex[j]} 0 <= j && j < gN ==> result0.RelativeIndex[j].Offset == gO[j]
-//@   ensures [C03.index_entry_position] err == nil ==> forall j Int :: {result0.RelativeIndex[j]} 0 <= j && j < gN ==> int64(result0.RelativeIndex[j].Position) == gQ[j]
-//@   ensures [C03.index_points_at_batch_starts] err == nil ==> forall j Int :: {gK[j]} {gO[j]} {gQ[j]} 0 <= j && j < gN ==> 0 <= gK[j] && gK[j] < len(batches) && gO[j] == batches[gK[j]].BaseOffset && (32 + gP[gK[j]] <= 2147483647 ==> gQ[j] == 32 + gP[gK[j]])
 // The conjuncts of indexShape (what C04 requires of an index: zz_verif_contracts.go), one per clause; offsets need ascending
 // batches, positions a segment below 2 GiB (Position is an int32)
 //@   ensures [C03.index_shape.offsets_increasing] err == nil && batchesAscending(batches) ==> offsetsIncreasing(result0.RelativeIndex)
 //@   ensures [C03.index_shape.positions_increasing] err == nil && len(result0.SegmentBytes) <= 2147483647 ==> positionsIncreasing(result0.RelativeIndex)
 //@   ensures [C03.index_shape.positions_from32] err == nil && len(result0.SegmentBytes) <= 2147483647 ==> positionsFrom32(result0.RelativeIndex)
-//@   ensures [C03.index_shape.monotone] err == nil && batchesAscending(batches) && len(result0.SegmentBytes) <= 2147483647 ==> forall i Int, j Int :: 0 <= i && i < len(result0.RelativeIndex) && 0 <= j && j < len(result0.RelativeIndex) && result0.RelativeIndex[i].Offset <= result0.RelativeIndex[j].Offset ==> result0.RelativeIndex[i].Position <= result0.RelativeIndex[j].Position
-//@   ensures [C03.index_positions_in_body] err == nil && len(result0.SegmentBytes) <= 2147483647 ==> forall i Int :: {result0.RelativeIndex[i]} 0 <= i && i < len(result0.RelativeIndex) ==> int64(result0.RelativeIndex[i].Position) < int64(len(result0.SegmentBytes)) - 16
+//@   ensures [C03.index_positions_in_body] err == nil && len(result0.SegmentBytes) <= 2147483647 ==> positionsBelow(result0.RelativeIndex, len(result0.SegmentBytes) - 16)
